@@ -21,9 +21,9 @@ import (
 )
 
 type refCurve struct {
-	Name         string
-	P, A, B, N   *big.Int
-	Gx, Gy       *big.Int
+	Name       string
+	P, A, B, N *big.Int
+	Gx, Gy     *big.Int
 }
 
 func hexInt(s string) *big.Int {
